@@ -4,6 +4,7 @@ import (
 	"fmt"
 	"go/token"
 	"go/types"
+	"strings"
 
 	"golang.org/x/tools/go/ssa"
 
@@ -478,4 +479,213 @@ func polySetEqual(a, b []*eng.Poly) bool {
 		}
 	}
 	return true
+}
+
+// ---------------------------------------------------------------------------
+// paramMutations computes, for every module function, which of its slice
+// parameters it writes through: an element store, a copy into it, an in-place
+// sort, an append onto a re-sliced prefix (p[:0], p[:k] — the new elements
+// land in the caller's backing array), or handing it to a function that does.
+type mutInfo struct {
+	pos  token.Pos
+	what string
+}
+
+func rootParam(v ssa.Value, fn *ssa.Function) int {
+	return rootParamSeen(v, fn, map[ssa.Value]bool{})
+}
+
+func rootParamSeen(v ssa.Value, fn *ssa.Function, seen map[ssa.Value]bool) int {
+	for v != nil && !seen[v] {
+		seen[v] = true
+		switch x := v.(type) {
+		case *ssa.Parameter:
+			for k, p := range fn.Params {
+				if p == x {
+					if _, ok := p.Type().Underlying().(*types.Slice); ok {
+						return k
+					}
+				}
+			}
+			return -1
+		case *ssa.Slice:
+			v = x.X
+		case *ssa.ChangeType:
+			v = x.X
+		case *ssa.Phi:
+			// a phi rooted at the parameter on any edge
+			for _, e := range x.Edges {
+				if k := rootParamSeen(e, fn, seen); k >= 0 {
+					return k
+				}
+			}
+			return -1
+		case *ssa.UnOp:
+			// a parameter captured by a closure lives in a cell: follow the cell's stores
+			al, ok := x.X.(*ssa.Alloc)
+			if x.Op != token.MUL || !ok {
+				return -1
+			}
+			for _, r := range *al.Referrers() {
+				if st, ok := r.(*ssa.Store); ok && st.Addr == ssa.Value(al) {
+					if k := rootParamSeen(st.Val, fn, seen); k >= 0 {
+						return k
+					}
+				}
+			}
+			return -1
+		default:
+			return -1
+		}
+	}
+	return -1
+}
+
+// prefixRoot: v is (an accumulator that started as) a re-sliced prefix p[:k] of slice parameter p, so that
+// appending to it overwrites elements of the caller's backing array. Returns the parameter index or -1.
+func prefixRoot(v ssa.Value, fn *ssa.Function, seen map[ssa.Value]bool) int {
+	if v == nil || seen[v] {
+		return -1
+	}
+	seen[v] = true
+	switch x := v.(type) {
+	case *ssa.Slice:
+		if x.High != nil {
+			return rootParam(x.X, fn)
+		}
+		return prefixRoot(x.X, fn, seen)
+	case *ssa.Phi:
+		for _, e := range x.Edges {
+			if k := prefixRoot(e, fn, seen); k >= 0 {
+				return k
+			}
+		}
+	case *ssa.Call:
+		if eng.CalleeName(x) == "builtin:append" && len(x.Call.Args) > 0 {
+			return prefixRoot(x.Call.Args[0], fn, seen)
+		}
+	}
+	return -1
+}
+
+var sortInPlace = map[string]bool{
+	"sort.Slice": true, "sort.SliceStable": true, "sort.Sort": true, "sort.Stable": true, "sort.Ints": true,
+	"sort.Strings": true, "sort.Float64s": true, "slices.Sort": true, "slices.SortFunc": true, "slices.SortStableFunc": true, "slices.Reverse": true,
+}
+
+func paramMutations(p *eng.Prog) map[*ssa.Function]map[int]mutInfo {
+	out := map[*ssa.Function]map[int]mutInfo{}
+	fns := p.ModuleFuncs()
+	set := func(fn *ssa.Function, k int, pos token.Pos, what string) bool {
+		if k < 0 {
+			return false
+		}
+		if out[fn] == nil {
+			out[fn] = map[int]mutInfo{}
+		}
+		if _, dup := out[fn][k]; dup {
+			return false
+		}
+		out[fn][k] = mutInfo{pos, what}
+		return true
+	}
+	for changed, round := true, 0; changed && round < 6; round++ {
+		changed = false
+		for _, fn := range fns {
+			if fn.Blocks == nil {
+				continue
+			}
+			eng.Instrs(fn, false, func(in ssa.Instruction) {
+				switch x := in.(type) {
+				case *ssa.Store:
+					if ia, ok := x.Addr.(*ssa.IndexAddr); ok {
+						if set(fn, rootParam(ia.X, fn), x.Pos(), "element store") {
+							changed = true
+						}
+					}
+				case ssa.CallInstruction:
+					com := x.Common()
+					name := eng.CalleeName(x)
+					switch {
+					case name == "builtin:copy" && len(com.Args) == 2:
+						if set(fn, rootParam(com.Args[0], fn), x.Pos(), "copy into it") {
+							changed = true
+						}
+					case name == "builtin:append" && len(com.Args) >= 1:
+						if set(fn, prefixRoot(com.Args[0], fn, map[ssa.Value]bool{}), x.Pos(), "append onto a re-sliced prefix") {
+							changed = true
+						}
+					case sortInPlace[name] && len(com.Args) >= 1:
+						a := com.Args[0]
+						if mi, ok := a.(*ssa.MakeInterface); ok {
+							a = mi.X
+						}
+						if set(fn, rootParam(a, fn), x.Pos(), "sorted in place ("+name+")") {
+							changed = true
+						}
+					default:
+						if g := com.StaticCallee(); g != nil && out[g] != nil {
+							for k, mi := range out[g] {
+								if k < len(com.Args) {
+									if set(fn, rootParam(com.Args[k], fn), x.Pos(), "handed to "+eng.FuncName(g)+" ("+mi.what+")") {
+										changed = true
+									}
+								}
+							}
+						}
+					}
+				}
+			})
+		}
+	}
+	return out
+}
+
+// R3.8 [C03, C11]
+func ruleInputReadonly(c *eng.Ctx) {
+	const R = "R3.8-INPUT-READONLY"
+	c.Rule(R, "functions that receive data the caller keeps (the raw bytes of a cached stream handed to a filter, the fragments of a page handed to header/footer detection) do not write through that slice: no element store, copy, in-place sort or append onto a re-sliced prefix, directly or in a callee", 60, 1)
+	mut := paramMutations(c.P)
+	hf := map[*ssa.Function]bool{}
+	if det := c.P.Func("layout.(*HeaderFooterDetector).Detect"); det != nil {
+		for _, f := range eng.Cluster(det, 4) {
+			hf[f] = true
+		}
+	} else {
+		c.Undec(R, "layout.(*HeaderFooterDetector).Detect", token.NoPos, "anchor not found")
+	}
+	for _, fn := range c.P.ModuleFuncs() {
+		if fn.Pkg == nil || fn.Parent() != nil {
+			continue
+		}
+		path := fn.Pkg.Pkg.Path()
+		inFilters := strings.HasSuffix(path, "internal/filters")
+		exported := false
+		if obj, ok := fn.Object().(*types.Func); ok && obj.Exported() {
+			exported = true
+			if recv := fn.Signature.Recv(); recv != nil {
+				t := recv.Type()
+				if pt, ok := t.(*types.Pointer); ok {
+					t = pt.Elem()
+				}
+				if nt, ok := t.(*types.Named); ok && !nt.Obj().Exported() {
+					exported = false
+				}
+			}
+		}
+		if !inFilters && !exported && !hf[fn] && !strings.Contains(path, eng.PositivePkg) {
+			continue
+		}
+		for k, p := range fn.Params {
+			if _, ok := p.Type().Underlying().(*types.Slice); !ok {
+				continue
+			}
+			key := fmt.Sprintf("%s#%s", eng.FuncName(fn), p.Name())
+			if mi, bad := mut[fn][k]; bad {
+				c.Viol(R, key, mi.pos, "the caller's slice "+p.Name()+" is written through ("+mi.what+"): data the caller keeps (cached stream bytes, a page's fragments) is changed by the call, so a second call on the same input sees something else")
+			} else {
+				c.Ok(R, key, fn.Pos(), "not written through")
+			}
+		}
+	}
 }
